@@ -206,6 +206,20 @@ func replayNative(dir string, v *Violation, lc LoadConfig) (bool, string) {
 		if strings.Contains(s, "panic:") || strings.Contains(s, "VERIF-PANIC") || strings.Contains(s, "fatal error:") {
 			return true, ""
 		}
+		if v.Multi {
+			// A panic raised by the runtime's own synchronisation primitives (e.g. WaitGroup reuse)
+			// depends on timing inside the primitive that the token hand-offs cannot force: look
+			// for it on the free-running real build with the same inputs, repeated.
+			cmd3 := exec.CommandContext(ctx, "go", "test", "-vet=off", "-count=400", "-failfast", "-timeout", "240s",
+				"-overlay", filepath.Join(dir, "overlay.json"), "-run", "^TestVerifReplay$", ".")
+			cmd3.Dir = lc.PkgDir
+			cmd3.Env = append(os.Environ(), "GOPROXY=off", "GOSX_REPLAY_MODE=free")
+			out3, _ := cmd3.CombinedOutput()
+			os.WriteFile(filepath.Join(dir, "replay-free.log"), out3, 0o644)
+			if strings.Contains(string(out3), "panic:") || strings.Contains(string(out3), "fatal error:") {
+				return true, ""
+			}
+		}
 	case "deadlock":
 		if strings.Contains(s, "all goroutines are asleep") || strings.Contains(s, "test timed out") || strings.Contains(s, "VERIF-TIMEOUT") {
 			return true, ""
